@@ -79,8 +79,8 @@ static void one(Doc& d, const std::string& text, std::string& out) {
 }
 
 template <typename Doc>
-static void run(const std::vector<std::string>& t, std::string& out) {
-  Doc d;
+static void run(const std::vector<std::string>& t, std::string& out, typename Doc::Allocator* a = nullptr) {
+  Doc d(a);
   for (size_t i = 2; i < t.size(); i++) {
     std::string text;
     if (!unhex(t[i], text)) {
@@ -96,6 +96,10 @@ using PoolDoc = sonic_json::Document;
 using SimpleDoc = sonic_json::GenericDocument<sonic_json::DNode<sonic_json::SimpleAllocator>>;
 using TrackDoc = sonic_json::GenericDocument<sonic_json::DNode<vh::TrackingAllocator>>;
 using GuardDoc = sonic_json::GenericDocument<sonic_json::DNode<vh::GuardAllocator>>;
+// pool allocator whose chunks come from the guard allocator and have the minimal capacity: every pool block is its own chunk
+// and ends (up to 8-byte alignment) at a PROT_NONE page, so the non-freeing pool configuration gets exact bounds too
+using GPool = sonic_json::MemoryPoolAllocator<vh::GuardAllocator>;
+using GPoolDoc = sonic_json::GenericDocument<sonic_json::DNode<GPool>>;
 
 static void cmd(const std::vector<std::string>& t, std::string& out) {
   if (t.size() < 3 || (t[0] == "parse" && t.size() != 3)) {
@@ -113,6 +117,13 @@ static void cmd(const std::vector<std::string>& t, std::string& out) {
   } else if (t[1] == "guard") {
     size_t before = vh::GuardAllocator::live();
     run<GuardDoc>(t, out);
+    if (out != "bad-op" && vh::GuardAllocator::live() != before) out += " guardleak";
+  } else if (t[1] == "gpool") {
+    size_t before = vh::GuardAllocator::live();
+    {
+      GPool a(1);
+      run<GPoolDoc>(t, out, &a);
+    }
     if (out != "bad-op" && vh::GuardAllocator::live() != before) out += " guardleak";
   } else {
     out = "bad-op";
